@@ -15,9 +15,11 @@ proposer's removals.  Histories are lists of events `define | submit | block | v
     that only confirmed transactions create; `IndexStep` across every step — the C11 fact "the
     index is the path to the best block and calcReorganizeChain returns the two paths to the
     fork point") no pooled transaction id occurs in a block of the main-chain index.  Neither
-    C10 nor C11 theorems are on main yet, hence the hypotheses; without `BaseSound` the
-    statement is false for the model (`c23_full_refuted`): `c23_full` quantifies over arbitrary
-    starting states of the base layer.
+    `BaseSound` is derived from pc10's C10 invariant (`ledgerSound_from_C10`: `Reach` for the
+    main chain ⇒ `BaseSound`); what stays a hypothesis is the index half (that the chain C10
+    speaks about is the node's height index — C11 `index_consistent`, `calcReorganize_correct`).
+    Without `BaseSound` the statement is false for the model (`c23_full_refuted`): `c23_full`
+    quantifies over arbitrary starting states of the base layer.
 (3) `events_paired`: the notification log = the difference of the set of pooled ids between
     consecutive states (what the driver prints after every op and what agrees, line by line,
     with the real dispatcher's MsgNewTx / MsgRemoveTx stream in every run): for every id the
@@ -28,6 +30,7 @@ proposer's removals.  Histories are lists of events `define | submit | block | v
 -/
 import BytomModel.Lemmas.NodePoolInv
 import BytomModel.Lemmas.PoolKeys
+import BytomModel.Lemmas.PoolLedgerBridge
 
 namespace BytomModel.Props.C23
 open BytomModel.Node BytomModel.Ledger BytomModel.NodeLedger BytomModel.NodePool
@@ -167,6 +170,36 @@ example : PInv exUL exS0 := pinv_empty_pool _ _ rfl (by intro t h; cases h)
 example : HistOK exUL exS0 exEvs := histOK_of_base _ _ (by decide)
 /-- the history really confirms tA and then reorganises it away -/
 example : confirmedIds ((exEvs.take 4).foldl baseStep exS0.base) = [10] ∧ confirmedIds (exEvs.foldl baseStep exS0.base) = [] := by decide
+
+/-! #### the ledger hypothesis from C10 -/
+
+/-- **`BaseSound` (LedgerSound) is a consequence of pc10's C10 invariant.**  If the persisted
+    tables were reached (`Lemmas.Ledger.Reach`: any history of extensions and reorganisations
+    the ledger accepted — preserved by every step of the node, C10 `settle_preserves_reach`)
+    ending on the chain `C`, and `C` is the list of the main-chain blocks' transactions, made of
+    universe transactions with an input-less first transaction per block, then every confirmed
+    transaction has an unspendable input that only confirmed transactions create.  What remains
+    a hypothesis is only that `C` IS the node's main chain (`hC`) — the index half, C11. -/
+theorem ledgerSound_from_C10 {UL : List Ledger.Tx} (wf : WFL UL) (b : NodeLedger.State)
+    (C : List BytomModel.Lemmas.Ledger.Blk)
+    (hreach : BytomModel.Lemmas.Ledger.Reach b.params b.kindOf C (b.utxo, b.contracts))
+    (hC : C.map (·.2) = (mainBlocks b.node).map b.txsOf)
+    (hUL : ∀ B ∈ C, ∀ t ∈ B.2, t ∈ UL)
+    (hcb : ∀ B ∈ C, ∀ t ∈ B.2.head?, t.ins = [])
+    (hne : ∀ B ∈ C, ∀ t ∈ B.2.drop 1, t.ins ≠ []) : BaseSound UL b :=
+  BytomModel.Lemmas.PoolLedgerBridge.baseSound_of_reach wf b C hreach hC hUL hcb hne
+
+/-- non-vacuity: the state of `exEvs` after block b1 confirmed tA is reached on `[genesis, b1]` -/
+def exChain : List BytomModel.Lemmas.Ledger.Blk := [(0, [exCb0]), (1, [exCb1, exTA])]
+def exSt4 : NodeLedger.State := (exEvs.take 4).foldl baseStep exS0.base
+
+example : BytomModel.Lemmas.Ledger.Reach exSt4.params exSt4.kindOf exChain (exSt4.utxo, exSt4.contracts) :=
+  BytomModel.Lemmas.Ledger.Reach.reorg (P := []) (A := []) (B := exChain) (st := ([], []))
+    BytomModel.Lemmas.Ledger.Reach.genesis (by unfold BytomModel.Lemmas.Ledger.WF BytomModel.Lemmas.Ledger.NodupKeys; decide)
+    (by unfold BytomModel.Lemmas.Ledger.WF BytomModel.Lemmas.Ledger.NodupKeys; decide) (by intro pt h; cases h)
+    (by intro k x y h; cases h) (by decide)
+example : exChain.map (·.2) = (mainBlocks exSt4.node).map exSt4.txsOf ∧ (∀ B ∈ exChain, ∀ t ∈ B.2, t ∈ exUL) ∧
+    (∀ B ∈ exChain, ∀ t ∈ B.2.head?, t.ins = []) ∧ (∀ B ∈ exChain, ∀ t ∈ B.2.drop 1, t.ins ≠ []) := by decide
 
 /-! #### the hypothesis about the ledger is needed -/
 
